@@ -46,6 +46,7 @@ COMPONENTS = {
 
 POOL = None
 REFS = None
+CLOCK0 = 946728000.0  # the simulated wall clock of the pristine references (2000-01-01 12:00 UTC)
 REF_STEPS = {}  # call id -> logical steps of the call alone in a pristine process
 WARNERS = {}  # call id -> number of warnings the call emits when run alone
 STATEFUL = {}  # call id -> sites: calls that were seen to write process-global state when run alone
@@ -339,7 +340,7 @@ def _child_reference(call, wfd):
         probe = sched.GlobalStoreProbe()
         disk = seams.SimDisk(log_events=False)
         disk.declare_missing("results")
-        with seams.Installed(disk), seams.MemPoison(0), sched.Steps(sched=probe) as st:
+        with seams.Installed(disk), seams.MemPoison(0), seams.SimClock(CLOCK0), sched.Steps(sched=probe) as st:
             rec = exec_call(call, prep, disk, "", reference=True)
         # does this call write process-global state of any kind (tables, memo caches, rebound names)?
         stateful = bool(probe.hits) or bool(guard.changed()) or bool(canon.clear_function_caches())
@@ -469,6 +470,8 @@ def _set_warning_environment(trace):
 
 def _memnote(trace):
     m = trace.get("mem")
+    if trace.get("clock") not in (None, CLOCK0):
+        return f"; simulated wall clock {trace['clock'] - CLOCK0:.0f} s after that of the pristine run" + (f", uninitialised memory fill pattern {m}" if m else "")
     return f"; uninitialised memory (np.empty in iodata) held fill pattern {m} in this run, zeros in the pristine one" if m else ""
 
 
@@ -497,7 +500,7 @@ def run_history(trace, refs, stats=None):
     recs = []
     table_reported = False
     mem = seams.MemPoison(trace.get("mem"))
-    with seams.Installed(disk), mem, sched.Steps(budget=_budget(calls)) as st:
+    with seams.Installed(disk), mem, seams.SimClock(trace.get("clock")), sched.Steps(budget=_budget(calls)) as st:
         for k, (call, prep) in enumerate(zip(calls, preps)):
             try:
                 # "flat" histories use the same names again and again (a name gets other content, an output exists already)
@@ -567,7 +570,7 @@ def run_threads(trace, refs, rng=None, stats=None):
     npsaved = _set_numpy_print_environment(trace)
     budget = _budget([c for cl in clients for c in cl])
     try:
-        with seams.Installed(disk), seams.MemPoison(trace.get("mem")) as mem, sched.Steps(budget=budget, sched=baton) as st:
+        with seams.Installed(disk), seams.MemPoison(trace.get("mem")) as mem, seams.SimClock(trace.get("clock")), sched.Steps(budget=budget, sched=baton) as st:
             done = baton.run([make(i) for i in range(len(clients))])
     except sched.SchedulerStall as exc:
         _restore_warn_state(wst)
@@ -651,7 +654,7 @@ for cid in {ids!r}:
     prep = c16.prepare_call(call)
     disk = seams.SimDisk(log_events=False)
     disk.declare_missing("results")
-    with seams.Installed(disk):
+    with seams.Installed(disk), seams.SimClock(c16.CLOCK0):
         out[cid] = c16.exec_call(call, prep, disk, "", reference=True)
     break  # one call per fresh interpreter
 print("FRESH " + json.dumps(out))
@@ -789,6 +792,8 @@ def run_task(task):
     if trace["mode"] == "history":
         trace["flat"] = erng.random() < 0.5
     trace["npprint"] = erng.random() < 0.3
+    # the wall clock of the run: the same instant as in the references, the next day, or years later
+    trace["clock"] = CLOCK0 + erng.choice([0, 86400, 86400, 400 * 86400, 9000 * 86400])
     if trace["mode"] == "history":
         viols, recs, steps = run_history(trace, REFS, stats)
         stats.inc("outcome.history_runs")
@@ -824,6 +829,8 @@ def shrink(trace, still_fails):
     t = copy.deepcopy(trace)
     if t.get("mem") and still_fails({**t, "mem": 0}):
         t["mem"] = 0  # the violation does not need a particular content of uninitialised memory
+    if t.get("clock") not in (None, CLOCK0) and still_fails({**t, "clock": CLOCK0}):
+        t["clock"] = CLOCK0  # ... nor another wall-clock time
     if t["mode"] == "history":
         calls = t["calls"]
         if len(calls) > 1:
